@@ -28,7 +28,7 @@ from sim.harness import draw_knobs
 
 ID = "C18"
 LEVEL = "exploration"
-RUNS = {"quick": 2500, "thorough": 100000}
+RUNS = {"quick": 2500, "thorough": 50000}
 WALL_CAP = {"quick": 120, "thorough": 3000}
 RULE = ("one case = one drawn configuration of nine logic blocks (3 counters, 3 accruals, 3 sequences; machine-wide, "
         "in a non-game mode, in a game mode with/without persist_state) plus one generated history of 8-45 "
